@@ -3,7 +3,7 @@
    composition and the cached reference energies / lowerings as parameters (their freshness is C03).
    Reference energies: hand-written model RefEnergy.v tied to the code by recorded iterations; its recursion is
    restated below.  Heat capacity: the centred difference, by the C03 effect summary + numerical comparison. *)
-From Coq Require Import Reals List ZArith.
+From Coq Require Import Reals List ZArith Lra.
 Import ListNotations.
 From MPC Require Import Num Species RInst StatMech RVec GenSpecies GenMixture RefEnergy C09_proofs.
 Open Scope R_scope.
@@ -56,6 +56,26 @@ Theorem C09_E0_negative_step : forall fuel l (spd p : species R * R),
 Proof. exact E0_negative_step. Qed.
 Print Assumptions C09_E0_positive_step.
 
-(* heat capacity: the centred temperature difference of the enthalpy at constant pressure (model of
-   calculate_heat_capacity; its statement sequence is the C03 effect summary: save T, T(1-d), enthalpy, T(1+d), enthalpy, restore) *)
-Definition heat_capacity_model (H : R -> R) (T d : R) : R := (H (T * (1 + d)) - H (T * (1 - d))) / (2 * d * T).
+(* heat capacity: `heat_capacity` is regenerated from LTE.calculate_heat_capacity on every run, with the enthalpy of the
+   mixture re-solved at a given temperature as an oracle H (that the two evaluations are of the *current* inputs at the
+   perturbed temperatures, and that T is restored, is the C03 effect summary: save T, T(1-d), enthalpy, T(1+d), enthalpy, restore).
+   It is the centred temperature difference of the enthalpy ... *)
+Theorem C09_heat_capacity_eq_spec : forall (H : R -> R) (T d : R),
+  heat_capacity RNum H T d = (H (T * (1 + d)) - H (T * (1 - d))) / (2 * d * T).
+Proof. exact heat_capacity_eq_spec. Qed.
+Print Assumptions C09_heat_capacity_eq_spec.
+(* ... with the documented default relative step 0.001 ... *)
+Theorem C09_heat_capacity_default_step : heat_capacity_default_delta RNum = 1 / 1000.
+Proof. exact heat_capacity_default_delta_value. Qed.
+(* ... which is the exact derivative for enthalpies quadratic in T (second-order accuracy) ... *)
+Theorem C09_heat_capacity_exact_on_quadratics : forall a b c T d : R, T <> 0 -> d <> 0 ->
+  heat_capacity RNum (fun x => a * x * x + b * x + c) T d = 2 * a * T + b.
+Proof. exact heat_capacity_quadratic. Qed.
+(* ... and, for any differentiable enthalpy, the derivative dH/dT at some temperature inside (T(1-d), T(1+d)). *)
+Theorem C09_heat_capacity_mean_value : forall (H H' : R -> R) (T d : R), 0 < T -> 0 < d ->
+  (forall x, T * (1 - d) <= x <= T * (1 + d) -> derivable_pt_lim H x (H' x)) ->
+  exists xi, T * (1 - d) < xi < T * (1 + d) /\ heat_capacity RNum H T d = H' xi.
+Proof. exact heat_capacity_mean_value. Qed.
+Print Assumptions C09_heat_capacity_mean_value.
+Example C09_heat_capacity_nonvacuous : heat_capacity RNum (fun x => 3 * x * x + 5 * x + 7) 1000 (1 / 1000) = 6005.
+Proof. rewrite heat_capacity_quadratic; lra. Qed.
